@@ -389,7 +389,15 @@ def check_variants(ck, originals, variants, tag, report=True):
             ck.count('C-site:targs:%s%s' % (st.get('kind'), '' if st.get('called') else '-not-called'))
         if v['sources'] == p0['sources']:
             ck.count('C-variant-identical-to-original:' + v['kind'])
-        d = compare_verdicts(v0, v1)
+        if v.get('dup_names'):
+            ck.count('C-variant-with-duplicate-names:' + v['kind'])
+            nb = lambda k: sum(1 for x in k if x == 'NameAlreadyBound')
+            d = None
+            if not v0[0] or not v1[0] or nb(v0[0]) != nb(v1[0]) or nb(v0[0]) == 0:
+                d = ('declarations with duplicate names: expected rejection with the same number of NameAlreadyBound in every '
+                     'order; %s before, %s after' % (v0[0], v1[0]))
+        else:
+            d = compare_verdicts(v0, v1)
         if d:
             fails.append((v, d, {'diagnostics': v0[0], 'compile': v0[1]}, {'diagnostics': v1[0], 'compile': v1[1],
                           'messages': [e['msg'][:200] for e in fres[j].get('errors', [])][:4]}))
@@ -521,7 +529,7 @@ def report_failures(ck, fails, programs_by_key, sites_by_key, rng):
         cls = (v['kind'], re.sub(r'\d+', 'N', d)[:60])
         p = programs_by_key[v['orig']]
         inp = {'rewrite': v['kind'], 'site': v['site'], 'module': v['module'], 'entry': v['entry'], 'program': p.get('label'),
-               'original': p['sources'], 'rewritten': v['sources']}
+               'original': p['sources'], 'rewritten': v['sources'], 'dup_names': bool(v.get('dup_names'))}
         if cls not in seen_classes and len(seen_classes) < 3 and v['orig'] in sites_by_key:
             seen_classes.add(cls)
             try:
@@ -542,19 +550,20 @@ def report_failures(ck, fails, programs_by_key, sites_by_key, rng):
         ck.property_failure('%s: %s' % (v['kind'], d), inp, expected=exp, observed=obs, how='./check C13 --replay <this file>')
 
 
-# the two classes of sites the generator avoids (gen/rewrites.py block_excluded), replayed as fixed witnesses
+# Two classes of `block` sites need care (gen/rewrites.py block_excluded); both are replayed as fixed witnesses.
+METHOD_VALUE_ID = 'C03-method-value-generic-receiver'      # a C03 finding (fixed by d1b42a2), found by this monitor
 WITNESSES = {
-    'C13-method-value-generic-receiver': {
-        'defect': True, 'site_class': 'method-callee-on-generic-receiver',
-        'what': 'a method of a generic class used as a value (`{ b.get }(2)` instead of `b.get(2)`) is accepted by the checker and panics the compiler (mir_generics_specialization.rs: unwrap on None)',
+    METHOD_VALUE_ID: {
+        'by_design': False, 'site_class': 'method-callee-on-generic-receiver',
+        'what': 'a method of a generic class used as a value (`{ b.get }(2)` instead of `b.get(2)`) was accepted by the checker and panicked the compiler (mir_generics_specialization.rs: unwrap on None)',
         'original': 'class B<T>(val x: T) { method get(d: int): T = this.x }\nclass Main { function main(): unit = { Process.println(Str.fromInt(B.init(1).get(2))); } }\n',
         'rewritten': 'class B<T>(val x: T) { method get(d: int): T = this.x }\nclass Main { function main(): unit = { Process.println(Str.fromInt({ B.init(1).get }(2))); } }\n'},
-    'C13-block-generic-callee': {
-        # spec 6.7.1 / 6.7.2: `C.f(args)` and `e.m(args)` are call FORMS (the part before the parenthesis is not an
-        # expression position); `{ C.f }(args)` is a direct call (6.7.3) of a block whose value is a generic function
-        # reference with no context to infer its type arguments from (5.7: "explicit type argument required (no
-        # context)").  Recorded as a limitation of the rewrite, not as a failure, unless the coordinator lists it.
-        'defect': False, 'site_class': 'generic-member-callee',
+    'block-around-generic-member-callee': {
+        # BY DESIGN, always excluded, not a finding (no id is registered for it).  spec 6.7.1 / 6.7.2: `C.f(args)` and
+        # `e.m(args)` are call FORMS (the part before the parenthesis is not an expression position); `{ C.f }(args)` is
+        # a direct call (6.7.3) of a block whose value is a generic function reference with no context to infer its
+        # type arguments from (5.7: "explicit type argument required (no context)").
+        'by_design': True, 'site_class': 'generic-member-callee',
         'what': 'wrapping the callee of a generic member call in a block (`{ Opt.Som }(3)`) makes an accepted program rejected (Underconstrained): the member reference is instantiated without the arguments',
         'original': 'class Opt<T>(Non, Som(T)) { method orElse(d: T): T = match this { Som(v) -> v, Non -> d } }\nclass Main { function main(): unit = { Process.println(Str.fromInt(Opt.Som(3).orElse(0))); } }\n',
         'rewritten': 'class Opt<T>(Non, Som(T)) { method orElse(d: T): T = match this { Som(v) -> v, Non -> d } }\nclass Main { function main(): unit = { Process.println(Str.fromInt({ Opt.Som }(3).orElse(0))); } }\n'},
@@ -567,27 +576,32 @@ def witnesses(ck):
         for m, t in enumerate((w['original'], w['rewritten'])):
             jobs.append({'id': 2 * n + m, 'sources': {'Main': t}, 'entries': ['Main'], 'compile': True})
     res = batch('front', jobs, nproc=4)
+    # the method-value finding is listed under C03: make it visible to this check's known_witness
+    if not any(k['id'] == METHOD_VALUE_ID for k in ck.known):
+        kf = json.load(open('/verif/known_findings.json'))
+        ck.known += [k for k in kf['findings'] if k['id'] == METHOD_VALUE_ID]
     for n, (kid, w) in enumerate(sorted(WITNESSES.items())):
         v0, v1 = verdict(res[2 * n]), verdict(res[2 * n + 1])
         d = compare_verdicts(v0, v1)
         ck.case(['witness', kid])
-        if d:
+        if w['by_design']:
             rewrites.EXCLUDED_BLOCK_CLASSES.add(w['site_class'])
+            ck.count('C-excluded-by-design:' + kid)
+            ck.notes.append('site class `%s` is excluded from the block rewrite BY DESIGN of the language (spec 6.7.1/6.7.2: the '
+                            'callee of `C.f(args)` / `e.m(args)` is not an expression position; 5.7: a generic member reference '
+                            'without context needs explicit type arguments); its witness currently gives: %s' % (kid, d or 'no difference'))
+            continue
+        if d:
+            rewrites.EXCLUDED_BLOCK_CLASSES.add(w['site_class'])        # keep the monitor's output to this one witness
         else:
-            rewrites.EXCLUDED_BLOCK_CLASSES.discard(w['site_class'])     # repaired: the monitor covers these sites again
-        registered = any(k['id'] == kid for k in ck.known)
-        if registered:
-            ck.known_witness(kid, bool(d), d or 'verdicts agree')
-        elif d and not w['defect']:
-            ck.count('C-excluded-site-class-still-differs:' + kid)
-            ck.notes.append('excluded site class %s (not counted as a failure, see WITNESSES in checks/c13.py): %s' % (kid, d))
+            rewrites.EXCLUDED_BLOCK_CLASSES.discard(w['site_class'])     # repaired: the monitor rewrites these sites
+        if any(k['id'] == kid for k in ck.known):
+            ck.known_witness(kid, bool(d), d or 'verdicts agree')        # status fixed + still fails -> property failure
         elif d:
             ck.property_failure('block: %s [%s]' % (d, kid), {'rewrite': 'block', 'original': {'Main': w['original']},
                                 'rewritten': {'Main': w['rewritten']}, 'entry': 'Main', 'module': 'Main', 'class': kid, 'what': w['what']},
                                 expected={'diagnostics': v0[0], 'compile': v0[1]}, observed={'diagnostics': v1[0], 'compile': v1[1]},
                                 how='./check C13 --replay <this file>')
-        else:
-            ck.notes.append('witness %s no longer fails: its site class is rewritten by the monitor again' % kid)
 
 
 def monitor(ck, programs, rng, cap, tag):
@@ -631,7 +645,7 @@ def replay_one(ck, path):
         entry = inp.get('entry', 'Main')
         o = {'sources': inp['original'], 'entry': entry, 'module': inp.get('module', entry), 'label': 'replay'}
         v = {'sources': inp['rewritten'], 'entry': entry, 'module': inp.get('module', entry), 'kind': inp.get('rewrite', 'replay'),
-             'site': inp.get('site'), 'orig': 0}
+             'site': inp.get('site'), 'orig': 0, 'dup_names': bool(inp.get('dup_names'))}
         v0 = verdict(batch('front', front_jobs([o]), nproc=1)[0])
         fails = check_variants(ck, {0: (o, v0)}, [v], 'c13replay')
         for v, d, exp, obs in fails:
@@ -677,7 +691,10 @@ def run(tier, seed, replay=None):
                'type/scoping error at a site of the checked AST, gen_error_program, multi-module sets of gen/hist.py)%s; '
                'rewrites rename / rename-all / reorder-top / reorder-mem / paren / block / paren-many / annot-let / annot-lambda / '
                'targs / split at every applicable site, sampled down to ~30 per program and kind quota; '
-               'oracle: multiset of diagnostic kinds, compile verdict, src-run behaviour' % (', tests/ and std/ modules' if tier != 'quick' else ''))
+               'oracle: multiset of diagnostic kinds, compile verdict, src-run behaviour; excluded by design of the language (spec '
+               '6.7.1/6.7.2, 5.7; not a finding): `block` around the callee of a generic member call (`{ Opt.Som }(3)` is '
+               'Underconstrained); reorders of declarations with duplicate names are only checked for rejection with the same '
+               'number of NameAlreadyBound' % (', tests/ and std/ modules' if tier != 'quick' else ''))
     if replay:
         return replay_one(ck, replay)
 
